@@ -832,7 +832,7 @@ class Evaluator:
                 changed.setdefault(name, []).append((extra, newv))
         for name, alts in changed.items():
             oldv = before.get(name)
-            acc = self._summarise_accumulation(name, oldv, alts, pat, it, line, bool(breaks))
+            acc = self._summarise_accumulation(name, oldv, alts, pat, it, line, bool(breaks), n_paths=len(normals) + len(breaks))
             if (acc is None or has_unknown(acc)) and self.loop_once and oldv is not None:
                 # relational abstraction (used only when BOTH sides of a comparison are evaluated this way): the state after ONE generic
                 # iteration -- a case distinction over the body's paths -- tagged with the collection the loop ranges over
@@ -870,11 +870,25 @@ class Evaluator:
     def _is_loop_target(self, name: str, tgt: ast.expr) -> bool:
         return name in _target_names(tgt)
 
-    def _summarise_accumulation(self, name, oldv, alts, pat, it, line, has_break):
+    def _summarise_accumulation(self, name, oldv, alts, pat, it, line, has_break, n_paths=None):
         """Turn per-iteration updates of one accumulator into a closed comprehension term."""
         if oldv is None:
             # variable first assigned inside the loop (a per-iteration temporary that escapes)
             return unknown(f"loop-temp-escapes:{name}", line)
+        if n_paths is not None and len(alts) == n_paths >= 2 and not has_break:
+            # every path of the body appends exactly one element: one element per iteration, chosen by the path's own conditions
+            singles = []
+            for extra, newv in alts:
+                dec = self._decompose(oldv, newv)
+                if dec is None or len(dec) != 1 or dec[0][0] != "concat" or dec[0][2] or dec[0][1][0] != "listlit" or len(dec[0][1][1]) != 1 or not extra:
+                    singles = None
+                    break
+                singles.append((extra, dec[0][1][1][0]))
+            if singles:
+                val = singles[-1][1]
+                for extra, elt in reversed(singles[:-1]):
+                    val = ("ite", self.mk_bool("and", list(extra)), elt, val)
+                return ("accum", "concat", oldv, ("listlit", (val,)), ((pat, it, ()),), const(False))
         pieces = []
         for extra, newv in alts:
             dec = self._decompose(oldv, newv)
@@ -1438,6 +1452,15 @@ class Evaluator:
             return [(state, l)]
         if r[0] == "bottom":
             return [(state, r)]
+        if l[0] == "const" and r[0] == "const" and isinstance(l[1], bool) and isinstance(r[1], bool) and sym in ("|", "&", "^"):
+            return [(state, const({"|": l[1] | r[1], "&": l[1] & r[1], "^": l[1] ^ r[1]}[sym]))]
+        if sym in ("|", "&") and (l[0] == "const" and isinstance(l[1], bool) or r[0] == "const" and isinstance(r[1], bool)):
+            # `a | b` / `a & b` on truth values (no short-circuit, same value)
+            k, other = (l, r) if l[0] == "const" and isinstance(l[1], bool) else (r, l)
+            if self.as_cond(other)[0] != "truth":
+                if sym == "|":
+                    return [(state, TRUE if k[1] else self.as_cond(other))]
+                return [(state, self.as_cond(other) if k[1] else FALSE)]
         # integer arithmetic
         if l[0] == "const" and r[0] == "const" and isinstance(l[1], (int, float)) and isinstance(r[1], (int, float)) and not isinstance(l[1], bool):
             try:
